@@ -11,6 +11,9 @@ type HeapView func(key, sort string) string
 
 type NilV struct{}
 
+// GhostSet is a ghost set (array to Bool) such as the visited set of a map iteration.
+type GhostSet struct{ T string }
+
 type EvalCtx struct {
 	f     *Frame
 	env   map[string]Val
@@ -189,7 +192,7 @@ func (e *EvalCtx) eval(n *XNode) Val {
 			}
 		}
 		orig := "(" + n.Op + " (" + strings.Join(binds, " ") + ") " + body + ")"
-		if n.Op == "forall" && e.f.hypMode && len(n.Bind) == 1 && sortOfType(e.typeByName(n.Bind[0].Type)) == "Int" {
+		if ((n.Op == "forall" && e.f.hypMode) || (n.Op == "exists" && !e.f.hypMode)) && len(n.Bind) == 1 && sortOfType(e.typeByName(n.Bind[0].Type)) == "Int" {
 			// as a hypothesis: add re-parameterised copies quantified over the absolute array index, so that any read of the array triggers them
 			q := "q_" + n.Bind[0].Name
 			variants := []string{orig}
@@ -207,7 +210,10 @@ func (e *EvalCtx) eval(n *XNode) Val {
 				// a = off + shift + k   =>   k = a - (off + shift)
 				sub := "(- q_abs " + plus(r.off, shift) + ")"
 				nb := replaceSym(body, q, sub)
-				variants = append(variants, fmt.Sprintf("(forall ((q_abs Int)) (! %s :pattern ((select (select %s %s) q_abs))))", nb, r.arr, r.ref))
+				variants = append(variants, fmt.Sprintf("(%s ((q_abs Int)) (! %s :pattern ((select (select %s %s) q_abs))))", n.Op, nb, r.arr, r.ref))
+			}
+			if n.Op == "exists" {
+				return S{or(variants...), boolT}
 			}
 			return S{and(variants...), boolT}
 		}
@@ -618,6 +624,13 @@ func (e *EvalCtx) call(n *XNode) Val {
 		}
 		r := e.f.unbox(v.T, t)
 		return r
+	case "isint":
+		need(1)
+		return S{app("is_int_tag", e.evalS(args[0]).T), boolT}
+	case "isfloat":
+		need(1)
+		v := e.evalS(args[0]).T
+		return S{or(e.f.hasType(v, types.Typ[types.Float32]), e.f.hasType(v, types.Typ[types.Float64])), boolT}
 	case "tag":
 		need(1)
 		return S{anyField("a.tag", e.evalS(args[0]).T), intT}
@@ -635,6 +648,9 @@ func (e *EvalCtx) call(n *XNode) Val {
 		return S{anyField("a.f", e.evalS(args[0]).T), types.Typ[types.Float64]}
 	case "has":
 		need(2)
+		if g, ok := e.eval(args[0]).(GhostSet); ok {
+			return S{app("select", g.T, e.evalS(args[1]).T), boolT}
+		}
 		m := e.evalS(args[0])
 		k := e.evalS(args[1])
 		mi := e.f.mapInfo(m.Ty)
